@@ -327,6 +327,8 @@ def may_modify(eng, fr, stmts, depth=0, seen=None):
                         base = base.value
                     if isinstance(base, ast.Attribute) and isinstance(base.value, ast.Name) and base.value.id == "self" and nm:
                         out.add((nm, base.attr))
+                        for g in getattr(eng, "field_ghost_effects", {}).get((selfobj.cls, base.attr), []):
+                            out.add(("ghost", g))
                 if isinstance(n, ast.Call) and isinstance(n.func, ast.Attribute):
                     f = n.func
                     # self.x.mutator(...)
@@ -346,21 +348,25 @@ def may_modify(eng, fr, stmts, depth=0, seen=None):
                         if not visit_call(target_obj, f.attr, depth):
                             return False
                     elif isinstance(f.value, ast.Name) and f.value.id not in ("self",):
-                        # a call on a local value (Deferred, list, ...): no cluster effect unless it is a callable
-                        # that re-enters; boundary handlers declare their ghost effects separately
-                        pass
+                        # a call on a local value (Deferred, list, str, ...): ghost effects by method name, if declared
+                        for g in getattr(eng, "ghost_effects", {}).get(f"*.{f.attr}", []):
+                            out.add(("ghost", g))
                 if isinstance(n, ast.Call) and isinstance(n.func, ast.Name) and n.func.id in ("getattr", "setattr"):
                     return False
+                if isinstance(n, ast.Call) and isinstance(n.func, ast.Name):
+                    for g in getattr(eng, "ghost_effects", {}).get(f"func:{n.func.id}", []):
+                        out.add(("ghost", g))
         return True
 
     def visit_call(obj, meth, depth):
         onm = owner_name(obj)
         if onm is None or onm == "ghost":
-            # boundary object: ghost effects declared by the registry
-            eff = eng.make_reg.__self__.boundary_ghost_effects(obj.cls, meth) if hasattr(eng.make_reg, "__self__") else \
-                getattr(eng, "boundary_ghost_effects", lambda c, m: None)(obj.cls, meth)
+            # boundary object: the ghost state its model may touch is declared by the engine; an
+            # undeclared boundary call is taken to touch all of it
+            tbl = getattr(eng, "ghost_effects", {})
+            eff = tbl.get(f"{obj.cls}.{meth}", tbl.get(f"{obj.cls}.*"))
             if eff is None:
-                return True
+                eff = list(cl.spec.ghost)
             for g in eff:
                 out.add(("ghost", g))
             return True
@@ -374,6 +380,8 @@ def may_modify(eng, fr, stmts, depth=0, seen=None):
         m = cl.am.machine_of(cd)
         if m is not None and meth in m.inputs:
             out.add((onm, "__state"))
+            for g in getattr(eng, "input_ghost_effects", {}).get((cd.name, meth), []):
+                out.add(("ghost", g))
             for (st, inp), (enter, outs, coll) in m.table.items():
                 if inp == meth:
                     for o in outs:
@@ -537,6 +545,20 @@ def run_engine(factory_mod, factory_name, tier="quick", jobs=16, max_rounds=40, 
     if cached is not None:
         uni = set(universe)
         inv = {cut: [k for k in ks if k in uni] for cut, ks in cached["inv"].items()}
+        # components the cached invariant has never heard of (added since): all their template
+        # clauses are candidates again (the cached set plus these is still a superset of the fixpoint)
+        known = set()
+        for ks in inv.values():
+            for k in ks:
+                for cid, _ in clause_from_key(k):
+                    known.add(cid)
+        newc = {c.cid for c in cl.components} - known
+        if newc:
+            extra = [k for k in universe if any(cid in newc for cid, _ in clause_from_key(k))]
+            for cut in inv:
+                have = set(inv[cut])
+                inv[cut] += [k for k in extra if k not in have]
+            log(f"[{eng.name}] new components {sorted(newc)}: {len(extra)} candidate clauses added to every cut")
         init_ok = set(initial_clauses(eng, inv.get("entry", [])))
         inv["entry"] = [k for k in inv.get("entry", []) if k in init_ok]
     else:
